@@ -38,6 +38,10 @@ pub async fn dispatch(ctx: &Ctx, rep: &mut ShardReport) -> bool {
             admin::run(ctx, rep).await;
             true
         }
+        "C08" => {
+            crate::groups::run(ctx, rep).await;
+            true
+        }
         "C09" => {
             crate::perm::run(ctx, rep).await;
             true
